@@ -24,6 +24,13 @@ type store struct {
 	elems map[string]*simdjson.Elements
 	// inputs kept alive / available for scribbling
 	inputs map[string][]byte
+	// scratch: caller-owned destination objects (Iter, Object, Array) are kept and handed to the API again
+	// (`mode scratch`), per store name and per nesting depth of the ordered walk; results must not depend on
+	// what a destination held before
+	scratch bool
+	scIters []*simdjson.Iter
+	scObjs  []*simdjson.Object
+	scArrs  []*simdjson.Array
 }
 
 func newStore() *store {
@@ -312,22 +319,39 @@ func (st *store) exec(line string) (out string) {
 			return "err"
 		}
 		return hx(b)
+	case "mode":
+		if ws[1] == "scratch" {
+			st.scratch = true
+		}
+		return "ok"
 	case "root":
-		typ, d, err := iter(ws[2]).Root(nil)
+		var rdst *simdjson.Iter
+		if st.scratch && ws[1] != ws[2] {
+			rdst = st.iters[ws[1]]
+		}
+		typ, d, err := iter(ws[2]).Root(rdst)
 		if err != nil {
 			return "err"
 		}
 		st.iters[ws[1]] = d
 		return strconv.Itoa(int(typ))
 	case "object":
-		o, err := iter(ws[2]).Object(nil)
+		var odst *simdjson.Object
+		if st.scratch {
+			odst = st.objs[ws[1]]
+		}
+		o, err := iter(ws[2]).Object(odst)
 		if err != nil {
 			return "err"
 		}
 		st.objs[ws[1]] = o
 		return "ok"
 	case "array":
-		a, err := iter(ws[2]).Array(nil)
+		var adst *simdjson.Array
+		if st.scratch {
+			adst = st.arrs[ws[1]]
+		}
+		a, err := iter(ws[2]).Array(adst)
 		if err != nil {
 			return "err"
 		}
@@ -338,15 +362,18 @@ func (st *store) exec(line string) (out string) {
 		st.iters[ws[1]] = &i
 		return "ok"
 	case "next":
-		var d simdjson.Iter
-		name, t, err := objOf(ws[1]).NextElementBytes(&d)
+		d := &simdjson.Iter{}
+		if prev, ok := st.iters[ws[2]]; ok && st.scratch {
+			d = prev
+		}
+		name, t, err := objOf(ws[1]).NextElementBytes(d)
 		if err != nil {
 			return "err"
 		}
 		if t == simdjson.TypeNone {
 			return "none"
 		}
-		st.iters[ws[2]] = &d
+		st.iters[ws[2]] = d
 		return fmt.Sprintf("%s %d", hx(name), int(t))
 	case "map":
 		oc := *objOf(ws[1])
@@ -668,7 +695,13 @@ func (st *store) exec(line string) (out string) {
 		// the same facts from the real kernels: indices equal by construction, error flags from stage 1
 		return implBlockscan(ws[1] == "512", ws[2] == "1", unhx(ws[3]))
 	case "owalk":
-		s, err := owalk(pjOf(ws[1]))
+		var s string
+		var err error
+		if st.scratch {
+			s, err = owalkScratch(pjOf(ws[1]), st)
+		} else {
+			s, err = owalk(pjOf(ws[1]))
+		}
 		if err != nil {
 			return errStr(err)
 		}
